@@ -633,7 +633,14 @@ func (h *handler1) handleSubscribe(ctx context.Context, snSubscribe *snPkts1.Sub
 		topic = string(snSubscribe.TopicName)
 		if !hasWildcard(topic) {
 			var err error
-			topicID, err = h.newTopicID()
+			// We must register the topic here, even when we can get
+			// a non-successful SUBACK later because MQTT specification says
+			// explicitly:
+			// The Server is permitted to start sending PUBLISH packets matching
+			// the Subscription before the Server sends the SUBACK Packet.
+			// [MQTT v.5.0, chapter 3.8.4 SUBSCRIBE Actions]
+			// An already registered topic keeps its TopicID.
+			topicID, err = h.registerTopic(topic)
 			if err != nil {
 				snSuback := snPkts1.NewSuback(0, snPkts1.RC_INVALID_TOPIC_ID, 0)
 				// We are kind of misusing the "invalid topic ID" return code here.
@@ -641,13 +648,6 @@ func (h *handler1) handleSubscribe(ctx context.Context, snSubscribe *snPkts1.Sub
 				snSuback.CopyMessageID(snSubscribe)
 				return h.snSend(snSuback)
 			}
-			// We must register the topic here, even when we can get
-			// a non-successful SUBACK later because MQTT specification says
-			// explicitly:
-			// The Server is permitted to start sending PUBLISH packets matching
-			// the Subscription before the Server sends the SUBACK Packet.
-			// [MQTT v.5.0, chapter 3.8.4 SUBSCRIBE Actions]
-			h.registeredTopics.Store(topicID, topic)
 		}
 		// topicID remains zero if client is subscribing to a wildcard topic.
 	case snPkts1.TIT_PREDEFINED:
